@@ -203,11 +203,8 @@ var knownByField = map[string]string{"fo": "deliver-fo-bits67", "oa": "alnum-4to
 
 func addrValueOK(got sms.Address, want specAddr) bool {
 	if want.alpha {
-		rs := make([]rune, len(want.septets))
-		for i, s := range want.septets {
-			rs[i] = rune(s)
-		}
-		return got.TON == 5 && int(got.NPI) == want.npi&15 && got.No == string(rs)
+		text, ok := specText(want.septets)
+		return ok && got.TON == 5 && int(got.NPI) == want.npi&15 && got.No == text
 	}
 	return int(got.TON) == want.ton&7 && int(got.NPI) == want.npi&15 && got.No == want.digits
 }
@@ -436,14 +433,71 @@ func digitString(r *gen.Rng, n int, leadingZeros bool) string {
 
 const alnumChars = "ABCDEFGHIJKLMNOPQRSTUVWXYZabcdefghijklmnopqrstuvwxyz0123456789 !#%&*+-./:;<=>?"
 
+// gsm0338 is GSM 03.38 §6.2.1 transcribed from the specification table (NOT from the library): the character of each
+// default-alphabet septet; 0x1B escapes to the extension table gsm0338ext.  Position 0x09 is read as U+00E7 (ç) as in
+// C08 (DESIGN.md §9.5).
+var gsm0338 = [128]rune{
+	'@', '£', '$', '¥', 'è', 'é', 'ù', 'ì', 'ò', 'ç', '\n', 'Ø', 'ø', '\r', 'Å', 'å',
+	'Δ', '_', 'Φ', 'Γ', 'Λ', 'Ω', 'Π', 'Ψ', 'Σ', 'Θ', 'Ξ', 0x1B, 'Æ', 'æ', 'ß', 'É',
+	' ', '!', '"', '#', '¤', '%', '&', '\'', '(', ')', '*', '+', ',', '-', '.', '/',
+	'0', '1', '2', '3', '4', '5', '6', '7', '8', '9', ':', ';', '<', '=', '>', '?',
+	'¡', 'A', 'B', 'C', 'D', 'E', 'F', 'G', 'H', 'I', 'J', 'K', 'L', 'M', 'N', 'O',
+	'P', 'Q', 'R', 'S', 'T', 'U', 'V', 'W', 'X', 'Y', 'Z', 'Ä', 'Ö', 'Ñ', 'Ü', '§',
+	'¿', 'a', 'b', 'c', 'd', 'e', 'f', 'g', 'h', 'i', 'j', 'k', 'l', 'm', 'n', 'o',
+	'p', 'q', 'r', 's', 't', 'u', 'v', 'w', 'x', 'y', 'z', 'ä', 'ö', 'ñ', 'ü', 'à',
+}
+
+var gsm0338ext = map[int]rune{0x0A: '\f', 0x14: '^', 0x28: '{', 0x29: '}', 0x2F: '\\', 0x3C: '[', 0x3D: '~', 0x3E: ']', 0x40: '|', 0x65: '€'}
+
+// specText: the text a septet sequence stands for (escape pairs resolved); ok=false outside the tables.
+func specText(septets []int) (string, bool) {
+	var rs []rune
+	for i := 0; i < len(septets); i++ {
+		s := septets[i]
+		if s < 0 || s > 127 {
+			return "", false
+		}
+		if s == 0x1B {
+			if i+1 >= len(septets) {
+				return "", false
+			}
+			e, ok := gsm0338ext[septets[i+1]]
+			if !ok {
+				return "", false
+			}
+			rs = append(rs, e)
+			i++
+			continue
+		}
+		rs = append(rs, gsm0338[s])
+	}
+	return string(rs), true
+}
+
+// alnumSeptets: n septets of an alphanumeric address: mostly the ASCII-coincident part, with national characters
+// (septet value differs from the code point, UTF-8 length differs from the septet count) and escape pairs mixed in.
+func alnumSeptets(r *gen.Rng, n int) []rune {
+	national := []int{0x01, 0x04, 0x05, 0x06, 0x09, 0x0B, 0x0C, 0x1C, 0x1E, 0x1F, 0x24, 0x40, 0x5B, 0x5C, 0x5D, 0x5E, 0x5F, 0x60, 0x7B, 0x7C, 0x7D, 0x7E, 0x7F, 0x10, 0x12, 0x18}
+	ext := []int{0x3C, 0x3E, 0x65, 0x28, 0x29, 0x14, 0x2F, 0x3D, 0x40}
+	plain := r.Chance(55)
+	var out []rune
+	for len(out) < n {
+		switch c := r.Intn(100); {
+		case !plain && c < 30:
+			out = append(out, rune(national[r.Intn(len(national))]))
+		case !plain && c < 42 && len(out)+2 <= n:
+			out = append(out, 0x1B, rune(ext[r.Intn(len(ext))]))
+		default:
+			out = append(out, rune(alnumChars[r.Intn(len(alnumChars))]))
+		}
+	}
+	return out
+}
+
 func genSpecAddr(r *gen.Rng) string {
 	if r.Chance(25) {
 		n := r.Pick(1, 2, 3, 8, 9, 10, 11, 1, 2, 3, 8, 9, 10, 11, 4, 5, 6, 7)
-		rs := make([]rune, n)
-		for i := range rs {
-			rs[i] = rune(alnumChars[r.Intn(len(alnumChars))])
-		}
-		return fmt.Sprintf("5 %d a %s", r.Intn(16), showRunes(rs))
+		return fmt.Sprintf("5 %d a %s", r.Intn(16), showRunes(alnumSeptets(r, n)))
 	}
 	ton := r.Pick(0, 1, 2, 3, 4, 6, 7)
 	n := r.Range(1, 20)
@@ -529,12 +583,11 @@ func genC19(r *gen.Rng, tier string, emit func(string)) {
 		}
 	}
 	for n := 1; n <= 11; n++ {
-		rs := make([]rune, n)
-		for i := range rs {
-			rs[i] = rune(alnumChars[r.Intn(len(alnumChars))])
+		for rep := 0; rep < 4; rep++ {
+			rs := alnumSeptets(r, n)
+			emit(fmt.Sprintf("smsd 1 1 61409865629 4 5 0 a %s 0 4 %s 2 4142", showRunes(rs), base))
+			emit(fmt.Sprintf("smss 1 7 5 1 a %s 0 4 none 2 4142", showRunes(rs)))
 		}
-		emit(fmt.Sprintf("smsd 1 1 61409865629 4 5 0 a %s 0 4 %s 2 4142", showRunes(rs), base))
-		emit(fmt.Sprintf("smss 1 7 5 1 a %s 0 4 none 2 4142", showRunes(rs)))
 	}
 	// hh:mm:ss enhanced periods
 	for i := 0; i < 40; i++ {
